@@ -1,11 +1,13 @@
 """C31 -- generated output files are all-or-nothing.
 
-(M)    spec/GenFile.tla (Start/Skip/Open/Write/Flush/Close/Crash/End/Observe/
+(M)    spec/GenFile.tla (Start/Skip/Open/Write/Flush/Close/Fault/Abandon/End/Observe/
        Rerun) model-checked; all-or-nothing, nothing-partial-left, never-skip-
        a-partial-file, overwrite-respected are invariants / action properties;
 (I->S) the three built-in generators are run on several grammars/models with
-       a failure (OSError, KeyboardInterrupt, SystemExit) injected at every
-       I/O call observed in a clean run (open, each write, flush, close), for
+       a failure (OSError, ValueError, TypeError, AttributeError, RuntimeError,
+       KeyboardInterrupt, SystemExit, GeneratorExit) injected at every I/O
+       call observed in a clean run (open, each write, flush, close) and a
+       second one at every call the code makes after the first, for
        overwrite on/off and a target that is absent, an old complete output,
        a symlink to one, or a dangling symlink; the output directory is listed
        afterwards, the generator is re-run without overwrite, and every run
@@ -59,7 +61,7 @@ def _validate(traces, dev):
 
 
 IO_EVENTS = ("Open", "Write", "Flush", "Close")
-SMALL = ["g1", "g2", "g3", "g4", "g5"]
+SMALL = ["g1", "g2", "g3", "g4", "g5", "g6"]
 
 
 def _inputs(with_big):
@@ -74,22 +76,35 @@ def _inputs(with_big):
     return names
 
 
-def _first_run_io(trace):
-    """Names of the I/O calls the generator made in the first run of a trace."""
+def _first_run(trace):
+    """The I/O events (calls and faults) of the first run of a trace."""
     out = []
     for e in trace["events"][1:]:
         if e["name"] == "End":
             break
-        if e["name"] in IO_EVENTS:
-            out.append(e["name"])
+        if e["name"] in IO_EVENTS or e["name"] == "Fault":
+            out.append(e)
     return out
 
 
-def _record(rep, gens, gnames, kinds):
-    """For every (generator, input, overwrite, pre-existing target): a clean run, then one run per I/O call
-    observed in that clean run with the failure injected at that call."""
+PRIMARY = {(False, "absent"), (True, "old")}
+
+
+def _record(rep, gens, gnames, kinds, full):
+    """For every (generator, input, overwrite, kind of target): a clean run; one run per I/O call observed in
+    that clean run and kind of failure, with the failure injected at that call; and, for every such run, one
+    more run per I/O call the code still made after the failure (cleanup, retry, fallback) with a second
+    failure injected there.  quick: every kind of failure at every call for the two primary combinations
+    (first generation, re-generation with --overwrite), OSError at every call for all combinations, second
+    failures after an OSError; thorough (`full`): the whole product."""
     work = tlc.scratch("vt-c31-run-")
     traces, meta = [], []
+
+    def add(s, ow, pre, faults, tr, ops):
+        shown = [[k, kind, ops.get(k, "?")] for k, kind in sorted(faults.items())]
+        traces.append(tr)
+        meta.append(dict(subject=s.name, overwrite=ow, pre=pre, faults=shown, writes=s.n))
+
     try:
         for gen in gens:
             for g in gnames:
@@ -102,16 +117,22 @@ def _record(rep, gens, gnames, kinds):
                 for ow in (False, True):
                     for pre in sorted(drv.TARGET_KINDS):
                         clean = s.scenario(ow, pre, None)
-                        ops = _first_run_io(clean)
-                        plan = [(None, None)] + [(k, kind) for k in range(len(ops)) for kind in kinds]
-                        for k, kind in plan:
-                            tr = clean if k is None else s.scenario(ow, pre, k, kind)
-                            label = None if k is None else ops[k] + (
-                                f"#{ops[:k + 1].count('Write')}" if ops[k] == "Write" else "")
-                            traces.append(tr)
-                            meta.append(dict(subject=s.name, overwrite=ow, pre=pre, crash_at=k, crash_op=label,
-                                             failure=kind, writes=s.n))
-                            count += 1
+                        ops = {e["i"]: e["name"] for e in _first_run(clean)}
+                        add(s, ow, pre, {}, clean, ops)
+                        count += 1
+                        ks = kinds if (full or (ow, pre) in PRIMARY) else ["OSError"]
+                        for k in sorted(ops):
+                            for kind in ks:
+                                tr = s.scenario(ow, pre, {k: kind})
+                                add(s, ow, pre, {k: kind}, tr, ops)
+                                count += 1
+                                if not (full or kind == "OSError"):
+                                    continue
+                                after = {e["i"]: e["name"] for e in _first_run(tr) if e["i"] > k}
+                                for j in sorted(after):
+                                    f2 = {k: kind, j: kind}
+                                    add(s, ow, pre, f2, s.scenario(ow, pre, f2), {**ops, **after})
+                                    count += 1
                 rep.bounds.setdefault("subjects", {})[s.name] = dict(io_calls=s.nops, writes=s.n, scenarios=count)
     finally:
         shutil.rmtree(work, ignore_errors=True)
@@ -136,7 +157,7 @@ def _judge(rep, traces, meta, devs):
         m, tr = meta[i], traces[i]
         case = dict(m, trace=drv.short(tr))
         if reached == ln:
-            rep.passed(case, nontrivial=m["crash_at"] is not None)
+            rep.passed(case, nontrivial=bool(m["faults"]))
             continue
         fid = next((f for f, g in alt.items() if g[i][0] == g[i][1]), None)
         if fid:
@@ -144,19 +165,21 @@ def _judge(rep, traces, meta, devs):
         else:
             e = tr["events"][reached]
             rep.violation(dict(kind="trace", meta=m, trace=tr, shown=drv.short(tr, reached + 1)),
-                          f"{m['subject']} overwrite={m['overwrite']} target {m['pre']} {m['failure']} at "
-                          f"{m['crash_op']}: event {reached + 1} {e} is not a step of GenFile!Next after "
+                          f"{m['subject']} overwrite={m['overwrite']} target {m['pre']} failures "
+                          f"{m['faults']}: event {reached + 1} {e} is not a step of GenFile!Next after "
                           f"{drv.short(tr, reached)}")
 
 
 def run(rep):
     quick = rep.tier == "quick"
-    rep.rule = ("I->S: for each built-in generator x input, one run per (overwrite, kind of target: absent / old "
-                "complete / symlink to an old complete output / dangling symlink, failing I/O call, kind of failure: "
-                "OSError / KeyboardInterrupt / SystemExit [/ GeneratorExit]) with the failure injected at every "
-                "open/write/flush/close call observed in a clean run, the output directory and the file behind the "
-                "link inspected, and a re-run without overwrite; each recorded as a trace and validated by TLC against "
-                "GenFile!Next. Non-trivial: a run with an injected failure; distinct by content.")
+    rep.rule = ("I->S: for each built-in generator x input (incl. a multi-file model exported with its model "
+                "repository), one run per (overwrite, kind of target: absent / old complete / symlink to an old "
+                "complete output / dangling symlink, failing I/O call, kind of failure: OSError, ValueError "
+                "(UnicodeEncodeError), TypeError, AttributeError, RuntimeError, KeyboardInterrupt, SystemExit, "
+                "GeneratorExit) with the failure injected at every open/write/flush/close call observed in a clean "
+                "run, plus a second failure at every call the code still makes after the first one; the output "
+                "directory and the file behind the link inspected, and a re-run without overwrite; each recorded as "
+                "a trace and validated by TLC against GenFile!Next. Non-trivial: a run with an injected failure.")
     rep.assumptions = [
         "the generators' output I/O is observed and failed through a wrapper installed as `open` in textx.export and "
         "textx.generators; a failing call has no effect on the file (the bytes of the failing write are not written)",
@@ -164,7 +187,9 @@ def run(rep):
         "model writes; 'old' iff it equals the pre-created older output; anything else is 'partial'",
         "the model / metamodel is loaded once per (generator, input); node names derived from id(object) are numbered "
         "by first appearance before contents are compared",
-        "what the code does after the injected failure (cleanup) is not recorded, only its effect on the directory",
+        "I/O calls made after an injected failure (closing the broken output, a retry or fallback) are recorded too; "
+        "a Close of a broken output is its abandonment; the commit (Close of an intact output) is the last I/O step "
+        "of a run and a run writes one output file",
         "a symlinked target points into a second scratch directory; `file` is the content seen through the path "
         "(links followed, as gen_file's os.path.exists does), `dest` the content of the file behind the link; whether "
         "a successful run writes through the link or replaces it is not judged",
@@ -174,8 +199,8 @@ def run(rep):
     rep.add_mc("MC_GenFile", r, INVS)
     devs = {f["deviation"]: f["id"] for f in common.open_findings(PID) if f["deviation"] in KNOWN_DEVS}
     gnames = _inputs(with_big=not quick)
-    kinds = sorted(drv.FAILURES) if not quick else ["OSError", "KeyboardInterrupt", "SystemExit"]
-    traces, meta = _record(rep, drv.GENERATORS, gnames, kinds)
+    kinds = sorted(drv.FAILURES)
+    traces, meta = _record(rep, drv.GENERATORS, gnames, kinds, full=not quick)
     rep.bounds["failure_kinds"] = kinds
     rep.bounds["target_kinds"] = sorted(drv.TARGET_KINDS)
     _judge(rep, traces, meta, devs)
@@ -200,7 +225,7 @@ def replay(path):
     try:
         s = drv.Subject(gen, g, work)
         s.calibrate()
-        tr = s.scenario(m["overwrite"], m["pre"], m["crash_at"], m.get("failure") or "OSError")
+        tr = s.scenario(m["overwrite"], m["pre"], {int(k): kind for k, kind, _ in m["faults"]})
     finally:
         shutil.rmtree(work, ignore_errors=True)
     got, _ = _validate([tr], "")
